@@ -189,6 +189,20 @@ Theorem C13_longest_matching_operator_is_found :
   find_ops tb rest = Some k.
 Proof. exact find_ops_unique_longest. Qed.
 
+(* with the default number pattern as literal matcher: a number whose Debug text is digits with at most one dot and reads back
+   as that number is readable in front of anything that does not continue it with a digit or a dot; names that do not start
+   with a digit or a dot are not taken for numbers *)
+Theorem C13_number_is_readable_by_the_default_matcher :
+  forall (D : Type) (C : carrier D) (tb : optable) (d : D) (rest : str),
+  show C d <> [] -> forallb num_char (show C d) = true ->
+  ((Nat.ltb 1 (length (show C d)) && Nat.ltb (count_dots (show C d)) 2) || (Nat.eqb (length (show C d)) 1 && Nat.eqb (count_dots (show C d)) 0)) = true ->
+  (match rest with [] => True | c :: _ => num_char c = false end) ->
+  lit C (show C d) = Some d ->
+  readable C tb is_numeric_text (PT (TNum d)) rest.
+Proof. exact @number_readable_default. Qed.
+Theorem C13_names_are_not_numbers : forall (x rest : str) c tl, x = c :: tl -> num_char c = false -> is_numeric_text (x ++ rest) = None.
+Proof. exact name_not_numeric. Qed.
+
 (* non-vacuity:  2*x-sin(y)+PI  without a single space, bare variable names, a constant *)
 Definition ex13_tb2 : optable :=
   [ {| repr := [43]%N; obin := Some {| prio := 0; comm := true |}; ounary := true; oconst := false |};
@@ -214,3 +228,5 @@ Print Assumptions C13_locally_readable_text_tokenizes.
 Print Assumptions C13_bare_variable_is_readable.
 Print Assumptions C13_operator_is_readable_where_it_is_the_longest_match.
 Print Assumptions C13_longest_matching_operator_is_found.
+Print Assumptions C13_number_is_readable_by_the_default_matcher.
+Print Assumptions C13_names_are_not_numbers.
